@@ -111,7 +111,8 @@ def c08_r1(ctx):
     RA = pm.Alpha(rd)
     sts = pm.stmts_of(rd.node)
     first = RA.find(sts, "lens_code = chr(self._dbfile.get_byte(lastbyte))", al=True)
-    xs = [st for st in sts if isinstance(st, ast.If) and RA.eq(st.test, "lens_code == 'X'")]
+    xs = [st for st in sts if isinstance(st, ast.If) and (RA.eq(st.test, "lens_code == 'X'") or
+                                                          (isinstance(st.test, ast.Name) and RA.eq(norm.inline_defs(st.test, rd.node), "lens_code == 'X'")))]
     ok = first is not None and len(xs) == 1 and RA.has(xs[0].body, "lens_code = chr(self._dbfile.get_byte(lastbyte - 2))", al=True) and \
         RA.has(xs[0].body, "offsets_code = chr(self._dbfile.get_byte(lastbyte - 1))", al=True)
     ncodes = sum(1 for st in sts if isinstance(st, ast.Assign) and any(norm.call_name(c) == "get_byte" for c in norm.calls_in(st.value)))
